@@ -30,6 +30,19 @@ def grows(lf):
     return r1 == "=" or r2 == "<"
 
 
+def seq_vs_zero(lf):
+    """relation of the (unsigned) sequence number to 0 on this row: '=' / '>' / None; `< 1` means `== 0`, `>= 1` means `> 0`"""
+    r0 = lf.relation("h.seq_num", "0")
+    if r0 in ("=", ">"):
+        return r0
+    r1 = lf.relation("h.seq_num", "1")
+    if r1 == "<":
+        return "="
+    if r1 in ("=", ">"):
+        return ">"
+    return None
+
+
 def rule_table(ctx, rule="C05.1"):
     b, leaves = prunable_table(ctx)
     ctx.evaluations += len(leaves)
@@ -42,8 +55,17 @@ def rule_table(ctx, rule="C05.1"):
         n_ok += 1
         d = lf.discr("past")
         if d == 0:
-            continue            # no head entry: nothing to compare with
-        seq0 = lf.relation("h.seq_num", "0")
+            # no head entry stored: only the first operation of a log (seq_num == 0) or a prune point may start it —
+            # anything else leaves a gap at the beginning of the stored log
+            seq0 = seq_vs_zero(lf)
+            pf = lf.boolean("prune_flag")
+            inst = "seq_num%s,prune_flag=%s,head=None" % ({"=": "=0", ">": ">0", None: "?"}.get(seq0, seq0), pf)
+            ctx.ob(rule, "ok-row-without-head starts the log:" + inst, seq0 == "=" or pf is True,
+                   "validate_prunable_backlink returns Ok for an empty log without establishing seq_num == 0 or a set prune "
+                   "flag (row: %s): an operation with a missing prefix is stored and the log starts with a gap"
+                   % lf.summary()["answers"], site=b.loc(), key="%s:ok-without-head:%s" % (rule, inst))
+            continue
+        seq0 = seq_vs_zero(lf)
         pf = lf.boolean("prune_flag")
         inst = "seq_num%s,prune_flag=%s,head=%s" % (
             {"=": "=0", ">": ">0", None: "?"}.get(seq0, seq0), pf, {1: "Some", None: "unexamined"}[d])
@@ -111,7 +133,8 @@ def run(ctx):
         "Decides (a) that ingest_operation passes the stored head of the log to the validator on every path, and (b) "
         "the complete decision table of validate_prunable_backlink over seq_num in {0,>0} x "
         "prune_flag x head in {None, Some with head.seq <,=,> seq} (validate_backlink inlined): an Ok "
-        "row with a possibly existing head entry must establish head.seq_num < seq_num. NOT decided: "
+        "row with a possibly existing head entry must establish head.seq_num < seq_num, and an Ok row without a head "
+        "entry must establish seq_num == 0 or a set prune flag. NOT decided: "
         "which rows LogPrune deletes at run time.")
     ctx.extra["exhaustive"] = True
     ctx.guarded(lambda: rule_table(ctx), "C05")
